@@ -197,7 +197,7 @@ def run(tier, seed, replay):
         for v in nat["violations"]:
             return True, v["what"] + f" [input {v['text']!r}]", {"op": "one", "mode": "lossless", "text": v["text"]}
         return None
-    names = ("pop[functional1]", "pop[plain]", "peek[1]", "parse_whitespace", "parse_brackets", "parse_operator",
+    names = ("pop[functional1]", "pop[functional2]", "pop[plain]", "peek[1]", "parse_whitespace", "parse_brackets", "parse_operator",
              "parse_identifier", "get_next_token")
     jobs = [j for j in SL.lexer_jobs() if j[0] in names]
     run_parallel(chk, jobs, SL.INSTALLS, replays={"Lexer." + n.split("[")[0]: replay_any for n in names}, procs=8)
